@@ -523,17 +523,20 @@ Inductive lop :=
 | LRemove (p : path) (i : pelem)         (* remove a[p][i] *)
 | LConsume (p : path).                   (* consume a[p] *)
 
-(* the op-assign hot path on one value: read, (rhs already evaluated), drop, call, assign *)
+(* the op-assign hot path on one value.  The old value is read FIRST (eval.rs ~987), then the right-hand side is
+   evaluated, then: drop_lhs, call, assign.  v_opassign_old is the part after the right-hand side. *)
+Definition v_opassign_old (p : path) (f : bop) (old w : val) (v : val) : val * bool :=
+  let (v1, ok1) := v_set true p None v in
+  if negb ok1 then (v1, false) else
+  match bop_apply f old w with
+  | None => (v1, false)                      (* the slot stays null *)
+  | Some r => v_set false p (Some r) v1
+  end.
+
 Definition v_opassign (p : path) (f : bop) (w : val) (v : val) : val * bool :=
   match v_get v p with
   | None => (v, false)
-  | Some old =>
-    let (v1, ok1) := v_set true p None v in
-    if negb ok1 then (v1, false) else
-    match bop_apply f old w with
-    | None => (v1, false)                      (* the slot stays null *)
-    | Some r => v_set false p (Some r) v1
-    end
+  | Some old => v_opassign_old p f old w v
   end.
 
 (* new content, result (None = raised) *)
@@ -600,7 +603,10 @@ Inductive sstmt :=
 | SEvery (x : nat) (p : path) (e : expr)                       (* every x[p] = e *)
 | SOp (x : nat) (p : path) (f : bop) (e : expr)                (* x[p] f= e *)
 | SMod (dst : option (nat * path)) (x : nat) (m : lop)         (* [y[q] =] pop|remove|consume x[..]   (m is LPop/LRemove/LConsume) *)
-| SSwap (x : nat) (p : path) (y : nat) (q : path).             (* swap x[p], y[q] *)
+| SSwap (x : nat) (p : path) (y : nat) (q : path)              (* swap x[p], y[q] *)
+| SOpMod (x : nat) (p : path) (f : bop) (wrap : bool) (y : nat) (m : lop).
+    (* x[p] f= M   or   x[p] f= [M]   where M is pop|remove|consume y[..]: a right-hand side that mutates (possibly
+       the target itself: `q ++= [pop q]`).  The old value of x[p] is read before M runs. *)
 
 Inductive stmt :=
 | Simple (s : sstmt)
@@ -652,6 +658,30 @@ Definition exec_s (st : state) (s : sstmt) : state * bool :=
       let (st1, ok1) := assign_to st false x p b in
       if ok1 then assign_to st1 false y q a else (st1, false)
     | _, _ => (st, false)
+    end
+  | SOpMod x p f wrap y m =>
+    match nth_error st x with
+    | None => (st, false)
+    | Some v =>
+      match v_get v p with
+      | None => (st, false)
+      | Some old =>
+        match nth_error st y with
+        | None => (st, false)
+        | Some vy =>
+          let (vy', r) := lop_apply m vy in
+          let st1 := set_var st y vy' in
+          match r with
+          | None => (st1, false)
+          | Some res =>
+            let w := if wrap then VList [res] else res in
+            match nth_error st1 x with
+            | None => (st1, false)
+            | Some v1 => let (v', ok) := v_opassign_old p f old w v1 in (set_var st1 x v', ok)
+            end
+          end
+        end
+      end
     end
   end.
 
